@@ -609,7 +609,7 @@ func init() {
 	})
 	vfRegister(&vfProp{
 		ID: "C14", Level: "exploration", ReplayClass: "decision-exact",
-		Rule:        "case = a pair with generated or user-supplied ECDSA / RSA-2048 certificates, fingerprints at session or media level; the signaling channel tampers with the fingerprint of the offer (victim B) or the answer (victim A): alter one hex digit, relabel the hash sha-1 / sha-384, delete, move between session and media level (value kept), lower-case (value kept); 10% of victims disable verification; non-trivial/distinct = distinct (tamper, target, certificates, level, verification) tuples",
+		Rule:        "case = a pair with generated or user-supplied ECDSA / RSA-2048 certificates, fingerprints at session or media level; the signaling channel tampers with the fingerprint of the offer (victim B) or the answer (victim A): alter one hex digit, relabel the hash sha-1 / sha-384, delete, move between session and media level (value kept), lower-case (value kept); or an impostor that drives pion/dtls by hand over the library's ICE, authenticates with its own certificate and appends the honest party's certificate to the chain (verifier as DTLS server and as client); 10% of victims disable verification; non-trivial/distinct = distinct (tamper, target, certificates, level, verification) tuples",
 		Real:        []string{"both PeerConnections with real ICE, DTLS (certificate verification), SCTP, data channels", "vnet"},
 		Stub:        []string{"signaling channel as man in the middle on a=fingerprint"},
 		Assumptions: []string{"'never reaches connected' is sampled every 500 ms of fake time for 30 s", "a description rejected by SetRemoteDescription (e.g. fingerprint deleted) ends the run"},
